@@ -127,12 +127,20 @@ Definition name_refused (name : bytes) : bool :=
 (* a use of a freed BusOwner: the sanitized build stops *)
 Definition all_live (q : queue) : bool := forallb o_live q.
 
+(* bus_registry_lookup + bus_service_owner_in_queue *)
+Definition in_queue (ss : list (key * queue)) (k : key) (c : N) : bool :=
+  match lookup ss k with
+  | Some q => match find_owner q c with Some _ => true | None => false end
+  | None => false
+  end.
+
 Definition acquire_service (cn : conn) (name : bytes) (flags : N) : prog N :=
   let c := c_id cn in
   if name_refused name then Fail EInvalidArgs else
   b <- get ;;
-  if b_maxnames b <=? nlen (c_owned cn) then Fail ELimitsExceeded else
   let k := KW name in
+  (* the limit is on names held: a caller that is already in the queue of this name is not refused *)
+  if (b_maxnames b <=? nlen (c_owned cn)) && negb (in_queue (b_services b) k c) then Fail ELimitsExceeded else
   let dnq := has_flag flags DBUS_NAME_FLAG_DO_NOT_QUEUE in
   let repl := has_flag flags DBUS_NAME_FLAG_REPLACE_EXISTING in
   match lookup (b_services b) k with
@@ -221,12 +229,12 @@ Definition add_match (cn : conn) (r : N) : prog unit :=
   allocs 2 ;;; act (AAddRule (c_id cn) r) ;;;
   send_ack (c_id cn).
 
-(* bus_driver_handle_remove_match: parse, ack first ("the ack is undone on
-   transaction cancel, but rule removal isn't"), then remove by value *)
+(* bus_driver_handle_remove_match: parse; MatchRuleNotFound before anything is
+   queued (bus_matchmaker_has_rule_by_value); then the ack first ("the ack is
+   undone on transaction cancel, but rule removal isn't"), then remove by value *)
 Definition remove_match (cn : conn) (r : N) : prog unit :=
   allocs 3 ;;;
-  send_ack (c_id cn) ;;;
-  if existsb (N.eqb r) (c_rules cn) then act (ARemoveRule (c_id cn) r)
+  if existsb (N.eqb r) (c_rules cn) then send_ack (c_id cn) ;;; act (ARemoveRule (c_id cn) r)
   else Fail EMatchRuleNotFound.
 
 (* ---- routed messages -------------------------------------------------------------------- *)
